@@ -30,3 +30,7 @@ try:
       print("    " + l[:260])
 finally:
   shutil.rmtree(d, ignore_errors=True)
+  import glob, time
+  for r in glob.glob("/var/tmp/vf-replays-*"):      # scratch witness dirs of runs older than an hour
+    if time.time() - os.path.getmtime(r) > 3600:
+      shutil.rmtree(r, ignore_errors=True)
